@@ -22,7 +22,7 @@ static volatile int g_futex[SCH_MAXT];        /* per-thread wake word */
 static volatile int g_state[SCH_MAXT];        /* 0 = not started, 1 = waiting at a point, 2 = running, 3 = finished */
 static int g_n = 0;
 static int g_prefix[SCH_MAXP]; static int g_prefix_len = 0;
-static struct sch_point g_trace[SCH_MAXP]; static int g_trace_len = 0;
+static struct sch_pt g_trace[SCH_MAXP]; static int g_trace_len = 0;
 static volatile int g_lock = 0;               /* protects the decision (only one thread is ever running, but starts race) */
 static int g_active = 0; static int g_diverged = 0; static int g_current = -1; static volatile int g_started = 0;
 
@@ -38,7 +38,7 @@ void sch_init(int nthreads, const int* prefix, int prefix_len) {
 }
 int sch_active(void) { return g_active; }
 int sch_diverged(void) { return g_diverged; }
-int sch_trace(const struct sch_point** out) { *out = g_trace; return g_trace_len; }
+int sch_trace(const struct sch_pt** out) { *out = g_trace; return g_trace_len; }
 
 /* choose the next thread among those waiting; called with the lock held by the thread that just stopped */
 static void decide(int from) {
